@@ -1,1 +1,170 @@
-fn main(){}
+//! Web-service monitors (C16, C17): real server process + in-process MongoDB stub + HTTP histories.
+//! `websim <c16|c17> --server BIN [--seed S] [--shard I] [--cases N] [--thorough] [--out FILE] [--work DIR]`
+//! The process isolates itself in a private network namespace (the server binds 0.0.0.0:8080).
+
+mod c16;
+mod c17;
+mod env;
+mod http;
+mod mongo;
+mod report;
+
+use report::Report;
+use std::collections::BTreeMap;
+use std::os::unix::process::CommandExt;
+
+pub struct Cfg {
+    pub prop: String,
+    pub seed: u64,
+    pub shard: u64,
+    pub cases: usize,
+    pub thorough: bool,
+    pub out: Option<String>,
+    pub server: String,
+    pub work: String,
+    pub extra: BTreeMap<String, String>,
+}
+
+impl Cfg {
+    pub fn case_seed(&self, i: usize) -> u64 {
+        let mut r = oracle::Rng::new(self.seed.wrapping_mul(1_000_003).wrapping_add(self.shard));
+        r.next_u64() ^ (i as u64).wrapping_mul(0x9E3779B97F4A7C15)
+    }
+    pub fn get_usize(&self, key: &str, default: usize) -> usize {
+        self.extra.get(key).and_then(|v| v.parse().ok()).unwrap_or(default)
+    }
+}
+
+fn isolate() {
+    if std::env::var("WEBSIM_ISOLATED").is_ok() {
+        return;
+    }
+    let exe = std::env::current_exe().expect("own path");
+    let args: Vec<String> = std::env::args().skip(1).collect();
+    // private network namespace with loopback up; falls through (returns) only if exec fails
+    let probe = std::process::Command::new("unshare").args(["-n", "--", "true"]).status();
+    if matches!(probe, Ok(s) if s.success()) {
+        let err = std::process::Command::new("unshare")
+            .args(["-n", "--", "sh", "-c", "ip link set lo up && exec \"$0\" \"$@\""])
+            .arg(exe)
+            .args(&args)
+            .env("WEBSIM_ISOLATED", "netns")
+            .exec();
+        eprintln!("exec under unshare failed: {}", err);
+    }
+    // fallback: serialise on a lock file and use the host's port 8080
+    let lock = std::fs::OpenOptions::new().create(true).write(true).truncate(false).open("/verif/.cache/port8080.lock");
+    if let Ok(f) = lock {
+        use std::os::fd::AsRawFd;
+        extern "C" {
+            fn flock(fd: i32, op: i32) -> i32;
+        }
+        unsafe {
+            flock(f.as_raw_fd(), 2);
+        }
+        std::mem::forget(f);
+    }
+    std::env::set_var("WEBSIM_ISOLATED", "lock");
+}
+
+fn main() {
+    isolate();
+    let args: Vec<String> = std::env::args().collect();
+    if args.len() < 2 {
+        eprintln!("usage: websim <c16|c17> --server BIN ...");
+        std::process::exit(64);
+    }
+    let mut cfg = Cfg {
+        prop: args[1].to_lowercase(),
+        seed: 1,
+        shard: 0,
+        cases: 10,
+        thorough: false,
+        out: None,
+        server: String::new(),
+        work: format!("/verif/.cache/run/websim-{}", std::process::id()),
+        extra: BTreeMap::new(),
+    };
+    let mut i = 2;
+    while i < args.len() {
+        let val = args.get(i + 1).cloned().unwrap_or_default();
+        match args[i].as_str() {
+            "--seed" => cfg.seed = val.parse().unwrap_or(1),
+            "--shard" => cfg.shard = val.parse().unwrap_or(0),
+            "--cases" => cfg.cases = val.parse().unwrap_or(10),
+            "--out" => cfg.out = Some(val),
+            "--server" => cfg.server = val,
+            "--work" => cfg.work = val,
+            "--thorough" => {
+                cfg.thorough = true;
+                i += 1;
+                continue;
+            }
+            k if k.starts_with("--") => {
+                cfg.extra.insert(k.trim_start_matches("--").to_string(), val);
+            }
+            _ => {}
+        }
+        i += 2;
+    }
+    let mut rep = Report::default();
+    match cfg.prop.as_str() {
+        "c16" => run_c16(&cfg, &mut rep),
+        "c17" => c17::run(&cfg, &mut rep),
+        other => {
+            eprintln!("unknown property {}", other);
+            std::process::exit(64);
+        }
+    }
+    let out = serde_json::to_string(&rep.to_json(&cfg.prop, cfg.seed, cfg.shard)).unwrap();
+    match &cfg.out {
+        Some(p) => std::fs::write(p, out).expect("write report"),
+        None => println!("{}", out),
+    }
+    let _ = std::fs::remove_dir_all(&cfg.work);
+    if !rep.violations.is_empty() {
+        std::process::exit(1);
+    }
+    if !rep.inconclusive.is_empty() {
+        std::process::exit(2);
+    }
+}
+
+fn run_c16(cfg: &Cfg, rep: &mut Report) {
+    let nmax = cfg.get_usize("nmax", if cfg.thorough { 6 } else { 5 });
+    // two phases: without and with injected task delays (hook H7)
+    for (phase, delay) in [("plain", "0"), ("delayed", "15-60")] {
+        let work = std::path::Path::new(&cfg.work).join(phase);
+        let mut env = match env::Env::start(&cfg.server, delay, &work) {
+            Ok(e) => e,
+            Err(e) => {
+                rep.inconclusive.push(e);
+                return;
+            }
+        };
+        if phase == "delayed" {
+            env.stub.update_delay_ms.store(10, std::sync::atomic::Ordering::Relaxed);
+        }
+        let ccfg = c16::C16Cfg { nmax, delayed: phase == "delayed" };
+        let n = if phase == "plain" { cfg.cases } else { (cfg.cases / 3).max(2) };
+        for i in 0..n {
+            if rep.too_many() || !rep.inconclusive.is_empty() {
+                break;
+            }
+            let seed = cfg.case_seed(i + if phase == "plain" { 0 } else { 100_000 });
+            c16::c16_case(&mut env, rep, seed, &ccfg);
+        }
+        let db = env.stub.db.lock().unwrap();
+        for (k, v) in &db.commands_by_kind {
+            rep.count(&format!("db.{}", k), *v);
+        }
+        if !db.unknown_commands.is_empty() {
+            rep.inconclusive.push(format!("stub received unknown commands {:?}", db.unknown_commands));
+        }
+        drop(db);
+        env.stop();
+    }
+    if rep.counters.get("delayed_cases_that_saw_running_tasks").copied().unwrap_or(0) == 0 && rep.violations.is_empty() {
+        rep.inconclusive.push("no response ever listed a running task although delays were injected".into());
+    }
+}
